@@ -42,6 +42,10 @@ class FuncSpec:
         """Return a condition under which this exception is an allowed outcome (None = never allowed)."""
         return None
 
+    def always(self, c, args, kwargs, outcome):
+        """(name, term) pairs that must hold whether the call returned or raised"""
+        return ()
+
     def canaries(self, c, args, kwargs, result):
         """Deliberately wrong postconditions: each must be refuted on at least one path."""
         return []
@@ -286,6 +290,9 @@ def verify(spec: FuncSpec, cfg: dict, tier="quick", exclude=()) -> RunResult:
                 res.outcomes[key] = res.outcomes.get(key, 0) + 1
                 if not getattr(e, "checked", False):
                     _exc_check(e)
+            # clauses that hold however the call ends (frame/effect clauses)
+            for name, term in spec.always(c, args, kwargs, outcome) or []:
+                ctx.oblige(name, term, kind="ensures", assume_after=False)
             res.paths += 1
         except PathInfeasible:
             res.infeasible += 1
